@@ -189,29 +189,92 @@ Proof.
   destruct o; cbn [fst]; exact H.
 Qed.
 
-(* C09, soundness of the head: FindHead keeps the links sound and, when it answers, the head is the start node or a fork-choice
-   descendant of it (positional ancestry, as in WInv), and it is viable *)
+(* the candidates of a start on an empty slot above the first slot of its root (C10-gap-anchor-prune-head) *)
+Definition gap_cand (ai li ar asl : N) (n : node) : Prop :=
+  n_fp n = ai \/ (n_fp n = li /\ n_parent n = ar /\ fst (n_ref n) <> ar /\ asl < snd (n_ref n)).
+Lemma gap_best_spec pa ai li ar asl : forall nodes i0 best bd0 bd,
+  (forall k n, nth_error nodes k = Some n -> nth_error (pa_nodes pa) (i0 + k) = Some n) ->
+  gap_best fixed pa nodes i0 ai li ar asl best bd0 = Ok bd ->
+  bd = bd0 \/ exists i n, nth_error (pa_nodes pa) i = Some n /\ gap_cand ai li ar asl n /\
+                          bd = (if n_bd n =? NONE then add64 (pa_off pa) (N.of_nat i) else n_bd n).
+Proof.
+  induction nodes as [|n rest IH]; intros i0 best bd0 bd Hpos H; cbn [gap_best] in H.
+  - inversion H. left. reflexivity.
+  - assert (Hrest : forall k m, nth_error rest k = Some m -> nth_error (pa_nodes pa) (S i0 + k) = Some m).
+    { intros k m Hk. replace (S i0 + k)%nat with (i0 + S k)%nat by lia. apply Hpos. exact Hk. }
+    assert (Hn : nth_error (pa_nodes pa) i0 = Some n) by (replace i0 with (i0 + 0)%nat by lia; apply Hpos; reflexivity).
+    destruct (negb (n_fp n =? ai) && negb ((n_fp n =? li) && (n_parent n =? ar) && negb (fst (n_ref n) =? ar) && (asl <? snd (n_ref n)))) eqn:Ec.
+    + eapply IH; eauto.
+    + assert (Hcand : gap_cand ai li ar asl n).
+      { apply andb_false_iff in Ec. destruct Ec as [E|E]; apply negb_false_iff in E.
+        - left. apply N.eqb_eq. exact E.
+        - right. repeat (apply andb_true_iff in E; destruct E as [E ?]). apply N.eqb_eq in E. apply N.eqb_eq in H2.
+          apply negb_true_iff, N.eqb_neq in H1. apply N.ltb_lt in H0. auto. }
+      destruct (nodeLeadsToViableHead fixed pa n) as [leads| | | |]; cbn [bind] in H; try discriminate.
+      destruct (leads && _).
+      * destruct (IH (S i0) _ _ bd Hrest H) as [->|Hex]; [|right; exact Hex]. right. exists i0, n. auto.
+      * eapply IH; eauto.
+Qed.
+
+(* C09, soundness of the head: FindHead keeps the links sound and, when it answers, the head is viable and is the start node, a
+   fork-choice descendant of it (positional ancestry, as in WInv), or - for a start on an empty slot - a fork-choice descendant of a
+   block built on the start's root after the start slot *)
 Theorem FindHead_sound r s pa pa1 h :
   BL pa -> created pa < two64 -> FindHead fixed r s pa = (pa1, Ok h) ->
   BL pa1 /\
   exists ia ih nh, idx_get (pa_idx pa1) (r, s) = Some (pa_off pa1 + N.of_nat ia) /\
-                   nth_error (pa_nodes pa1) ih = Some nh /\ n_ref nh = h /\
-                   anc (fps_of pa1) ih ia = true /\ viable pa1 nh = true.
+                   nth_error (pa_nodes pa1) ih = Some nh /\ n_ref nh = h /\ viable pa1 nh = true /\
+                   (anc (fps_of pa1) ih ia = true \/
+                    exists ic nc, nth_error (pa_nodes pa1) ic = Some nc /\ n_parent nc = r /\ fst (n_ref nc) <> r /\
+                                  s < snd (n_ref nc) /\ anc (fps_of pa1) ih ic = true).
 Proof.
   intros HB Hcr. unfold FindHead. unfold mbind at 1.
   pose proof (ensureConnections_BL pa HB Hcr) as HB0.
-  destruct (ensureConnections fixed pa) as [pa0 o]. cbn [fst] in HB0. destruct o; try discriminate.
+  pose proof (ensureConnections_same_tree fixed pa) as HS0.
+  destruct (ensureConnections fixed pa) as [pa0 o]. cbn [fst] in HB0, HS0. destruct o; try discriminate.
+  assert (Hcr0 : created pa0 < two64).
+  { destruct HS0 as [_ [_ [Ho Hm]]]. unfold created, lenN in *. rewrite Ho.
+    replace (length (pa_nodes pa0)) with (length (pa_nodes pa)); [exact Hcr|].
+    rewrite <- (map_length strip (pa_nodes pa)), <- Hm, map_length. reflexivity. }
   unfold mbind, get, lift_o, ret, fail.
   destruct (idx_get (pa_idx pa0) (r, s)) as [ai|] eqn:Ea; [|discriminate].
   destruct (getNode fixed pa0 ai) as [an| | | |] eqn:Ean; try discriminate.
-  destruct (getNode fixed pa0 (if n_bd an =? NONE then ai else n_bd an)) as [bn| | | |] eqn:Ebn; try discriminate.
-  destruct (viable pa0 bn) eqn:Ev; [|discriminate]. intros H. inversion H. subst pa1 h. split; [exact HB0|].
-  destruct (getNode_pos pa0 ai an Ean) as [ia [Hai Hia]]. destruct (getNode_pos pa0 _ bn Ebn) as [ih [Hbi Hih]].
-  exists ia, ih, bn. split; [rewrite Ea, Hai; reflexivity|]. split; [exact Hih|]. split; [reflexivity|]. split; [|exact Ev].
-  destruct HB0 as [HF HL]. destruct (n_bd an =? NONE) eqn:Eb.
-  - assert (ih = ia) by lia. subst ih. apply anc_refl.
-  - apply N.eqb_neq in Eb. destruct (HL ia an Hia) as [[_ Hn]|[c [d [Hbc [Hbd [Hcl [Hdl [Hfc Ha]]]]]]]]; [congruence|].
-    assert (ih = d) by lia. subst ih. eapply anc_parent; eauto.
+  destruct (getNode_pos pa0 ai an Ean) as [ia [Hai Hia]].
+  destruct HB0 as [HF HL].
+  (* where a best-descendant field of a node leads: into the subtree of that node *)
+  assert (Hbd : forall i n ih, nth_error (pa_nodes pa0) i = Some n ->
+            (if n_bd n =? NONE then pa_off pa0 + N.of_nat i else n_bd n) = pa_off pa0 + N.of_nat ih -> anc (fps_of pa0) ih i = true).
+  { intros i n ih Hi Hq. destruct (n_bd n =? NONE) eqn:Eb.
+    - assert (ih = i) by lia. subst ih. apply anc_refl.
+    - apply N.eqb_neq in Eb. destruct (HL i n Hi) as [[_ Hn]|[c [d [Hbc [Hbd [Hcl [Hdl [Hfc Ha]]]]]]]]; [congruence|].
+      assert (ih = d) by lia. subst ih. eapply anc_parent; eauto. }
+  cbn [f_gap_head fixed andb].
+  destruct ((n_parent an =? r) && ((match bs_get (pa_bs pa0) r with Some s0 => s0 | None => 0 end) <? s)) eqn:Eg.
+  - (* start on an empty slot above the first slot of its root *)
+    match goal with |- context [gap_best ?a ?b ?c ?d ?e ?f ?g ?h ?i ?j] => destruct (gap_best a b c d e f g h i j) as [bi| | | |] eqn:Egb end; try discriminate.
+    destruct (getNode fixed pa0 bi) as [bn| | | |] eqn:Ebn; try discriminate.
+    destruct (viable pa0 bn) eqn:Ev; [|discriminate]. intros H. inversion H. subst pa1 h. split; [split; assumption|].
+    destruct (getNode_pos pa0 _ bn Ebn) as [ih [Hbi Hih]].
+    exists ia, ih, bn. split; [rewrite Ea, Hai; reflexivity|]. split; [exact Hih|]. split; [reflexivity|]. split; [exact Ev|].
+    apply gap_best_spec in Egb; [|intros k n Hk; exact Hk].
+    destruct Egb as [->|[i [n [Hi [Hc Hq]]]]].
+    + left. assert (ih = ia) by lia. subst ih. apply anc_refl.
+    + assert (Hadd : add64 (pa_off pa0) (N.of_nat i) = pa_off pa0 + N.of_nat i).
+      { unfold add64. apply wrap64_small. assert (i < length (pa_nodes pa0))%nat by (apply nth_error_Some; congruence).
+        unfold created, lenN in Hcr0. lia. }
+      rewrite Hadd in Hq. rewrite Hbi in Hq. pose proof (Hbd i n ih Hi (eq_sym Hq)) as Hanc.
+      destruct Hc as [Hfp|[Hfp [Hp [Hr Hs]]]].
+      * left. assert (Hfi : nth_error (fps_of pa0) i = Some (Some ia)).
+        { rewrite (fps_nth pa0 i n Hi). unfold fpos. rewrite Hfp, Hai.
+          replace (pa_off pa0 + N.of_nat ia =? NONE) with false by (symmetry; apply N.eqb_neq; unfold NONE, max64, two64, created, lenN in *; assert (ia < length (pa_nodes pa0))%nat by (apply nth_error_Some; congruence); lia).
+          replace (pa_off pa0 + N.of_nat ia <? pa_off pa0) with false by (symmetry; apply N.ltb_ge; lia). cbn [orb]. f_equal. f_equal. lia. }
+        eapply anc_parent; eauto.
+      * right. exists i, n. auto.
+  - destruct (getNode fixed pa0 (if n_bd an =? NONE then ai else n_bd an)) as [bn| | | |] eqn:Ebn; try discriminate.
+    destruct (viable pa0 bn) eqn:Ev; [|discriminate]. intros H. inversion H. subst pa1 h. split; [split; assumption|].
+    destruct (getNode_pos pa0 _ bn Ebn) as [ih [Hbi Hih]].
+    exists ia, ih, bn. split; [rewrite Ea, Hai; reflexivity|]. split; [exact Hih|]. split; [reflexivity|]. split; [exact Ev|].
+    left. apply (Hbd ia an ih Hia). rewrite <- Hbi, Hai. reflexivity.
 Qed.
 
 (* pushes of fresh nodes without best links keep BL: via the generic induction of WeightProofs *)
@@ -285,7 +348,9 @@ Proof.
       destruct (ensureConnections fixed pa) as [pa0 o0]. cbn [fst] in H0. destruct o0; try exact H0.
       unfold mbind, get, lift_o, ret, fail. destruct (idx_get (pa_idx pa0) (r, s)); [|exact H0].
       destruct (getNode fixed pa0 n) as [an| | | |]; try exact H0.
-      destruct (getNode fixed pa0 (if n_bd an =? NONE then n else n_bd an)) as [bn| | | |]; try exact H0.
+      match goal with |- context [if ?c then gap_best ?a ?b ?c1 ?d ?e ?f ?g ?h ?i ?j else ?k] =>
+        destruct (if c then gap_best a b c1 d e f g h i j else k) as [bi| | | |] end; try exact H0.
+      destruct (getNode fixed pa0 bi) as [bn| | | |]; try exact H0.
       destruct (viable pa0 bn); exact H0.
     + destruct HS as [_ [_ [Ho Hm]]]. unfold created, lenN in *. rewrite Ho.
       replace (length (pa_nodes (fst (FindHead fixed r s pa)))) with (length (pa_nodes pa)); [exact Hc|].
@@ -296,8 +361,10 @@ Qed.
    one of its fork-choice descendants, and it is viable *)
 Theorem head_sound_partial : forall pa r s pa1 h, lreach pa -> FindHead fixed r s pa = (pa1, Ok h) ->
   exists ia ih nh, idx_get (pa_idx pa1) (r, s) = Some (pa_off pa1 + N.of_nat ia) /\
-                   nth_error (pa_nodes pa1) ih = Some nh /\ n_ref nh = h /\
-                   anc (fps_of pa1) ih ia = true /\ viable pa1 nh = true.
+                   nth_error (pa_nodes pa1) ih = Some nh /\ n_ref nh = h /\ viable pa1 nh = true /\
+                   (anc (fps_of pa1) ih ia = true \/
+                    exists ic nc, nth_error (pa_nodes pa1) ic = Some nc /\ n_parent nc = r /\ fst (n_ref nc) <> r /\
+                                  s < snd (n_ref nc) /\ anc (fps_of pa1) ih ic = true).
 Proof.
   intros pa r s pa1 h Hl HF. destruct (links_reach pa Hl) as [_ [HB Hc]]. exact (proj2 (FindHead_sound r s pa pa1 h HB Hc HF)).
 Qed.
